@@ -208,6 +208,16 @@ def step (s : St) (line : String) : St × String :=
         let v := if restored s.t0 t then "ok" else "FAIL a failed New (error after the terminal was set up, no handle returned) leaves the terminal unrestored:" ++ describe s.t0 t
         ({ s with t := t }, s!"{c.1}\t{c.2}\t{v}")
       | none => (s, bad3)
+  | ["closeby", "sigstartup"] =>
+      -- a real SIGTERM while New waits for the replies to its queries: setupSignals is the last step of New, so
+      -- the default action kills the process; what it had written so far is judged by the mode terminal (F406)
+      if impl = "notkilled" then (s, "-\t-\t-") else
+      match lex impl with
+      | some itoks =>
+        let t := ModeTerm.run s.t itoks
+        let v := if restored s.t0 t then "ok" else "FAIL a termination signal during New (before setupSignals) killed the process; the terminal is left:" ++ describe s.t0 t
+        ({ s with t := t }, s!"-\t-\t{v}")
+      | none => (s, bad3)
   | ["closeby", "signalframe"] =>
       -- forced schedule "kill signal mid-frame" (F404/F410): the Close run by the kill arm is held at the end of
       -- its Suspend while the main goroutine renders one more frame; judged by the mode terminal only
